@@ -575,3 +575,54 @@ Section InitFinal.
         * rewrite Es1. nra.
   Qed.
 End InitFinal.
+
+(* ------------------------------------------------------------------ the whole evaluate: partial correctness *)
+Section Whole.
+  Variable d : Z -> Q.
+  Variables q k : Q.
+  Hypothesis Hq0 : (0 <= q)%Q.
+  Hypothesis Hq1 : (q < 1)%Q.
+  Hypothesis Hk : (0 < k)%Q.
+  Hypothesis Hd : forall s, (d s == k * (inject_Z s + 1 - q))%Q.
+  Variable votes : mat.
+  Hypothesis Hwf : wf_votes votes.
+  Hypothesis Hvnn : forall i j, 0 <= mget votes i j.
+  Hypothesis Hsome : exists i j, 0 < mget votes i j.
+  Variable n : Z.
+  Hypothesis Hn : 0 <= n.
+  Variable dorder : list C.
+  Hypothesis Hdorder : incl (districts votes) dorder.
+
+  Theorem evaluate_core_partial tgt fuel res rho gamma :
+    evaluate_core d q votes tgt dorder n fuel = BP_ok res rho gamma ->
+    exists pseats, ha_marginal d (party_totals votes) n = Some pseats /\
+      cert_ok d (districts votes) (parties votes) votes tgt pseats res (scale_k k rho) gamma = true.
+  Proof.
+    unfold evaluate_core. destruct (binit d q votes n) as [e|s] eqn:Ei; [intros ->; unfold binit in Ei;
+      destruct (initial_solution d votes n); discriminate|].
+    intros H. destruct (binit_inv d q k Hq0 Hq1 Hk Hd votes Hwf Hvnn Hsome n Hn s Ei) as (pseats & Ep & I).
+    exists pseats. split; [unfold ha_marginal; rewrite Ep; reflexivity|].
+    apply (bloop_partial d q k Hq0 Hq1 Hk Hd votes Hwf pseats tgt dorder Hdorder fuel s res rho gamma I H).
+  Qed.
+
+  Theorem evaluate_total_partial fuel res rho gamma :
+    evaluate_total d q votes n dorder fuel = BP_ok res rho gamma ->
+    exists pseats dseats, ha_marginal d (party_totals votes) n = Some pseats /\
+      ha_marginal d (district_totals votes) n = Some dseats /\
+      cert_ok d (districts votes) (parties votes) votes dseats pseats res (scale_k k rho) gamma = true.
+  Proof.
+    unfold evaluate_total. destruct (binit d q votes n) as [e|s] eqn:Ei; [intros ->; unfold binit in Ei;
+      destruct (initial_solution d votes n); discriminate|].
+    destruct (evaluate d (district_totals votes) n [] []) as [tgt [t|]|] eqn:Et; try discriminate.
+    intros H. destruct (evaluate_core_partial tgt fuel res rho gamma H) as (pseats & Hp & Hc).
+    exists pseats, tgt. split; [exact Hp|]. split; [unfold ha_marginal; rewrite Et; reflexivity|exact Hc].
+  Qed.
+End Whole.
+
+(* the two divisor rules the evaluator knows the signpost constant of *)
+Lemma d_hondt_signposts s : (d_hondt s == 1 * (inject_Z s + 1 - 0))%Q.
+Proof. unfold d_hondt. rewrite inject_Z_plus. change (inject_Z 1) with 1%Q. ring. Qed.
+Lemma sainte_lague_signposts s : (sainte_lague s == 2 * (inject_Z s + 1 - (1 # 2)))%Q.
+Proof.
+  unfold sainte_lague. rewrite inject_Z_plus, inject_Z_mult. change (inject_Z 1) with 1%Q. change (inject_Z 2) with 2%Q. field.
+Qed.
